@@ -66,4 +66,52 @@ static inline uint8_t spec_uint_octet(uint64_t v, size_t i) {
 	return sh >= 8 ? 0 : (uint8_t)(v >> (8 * sh));
 }
 
+
+/* value denoted by n (1..8) contents octets, two's complement big-endian (8.3.3) */
+static inline int64_t spec_int_decode(const uint8_t *b, size_t n) {
+	uint64_t v = (b[0] & 0x80) ? ~(uint64_t)0 : 0;
+	v = (v << 8) | b[0];
+	if(n > 1) v = (v << 8) | b[1];
+	if(n > 2) v = (v << 8) | b[2];
+	if(n > 3) v = (v << 8) | b[3];
+	if(n > 4) v = (v << 8) | b[4];
+	if(n > 5) v = (v << 8) | b[5];
+	if(n > 6) v = (v << 8) | b[6];
+	if(n > 7) v = (v << 8) | b[7];
+	return (int64_t)v;
+}
+/* unsigned value of n (0..8) octets, big-endian */
+static inline uint64_t spec_uint_decode(const uint8_t *b, size_t n) {
+	uint64_t v = 0;
+	if(n > 0) v = (v << 8) | b[0];
+	if(n > 1) v = (v << 8) | b[1];
+	if(n > 2) v = (v << 8) | b[2];
+	if(n > 3) v = (v << 8) | b[3];
+	if(n > 4) v = (v << 8) | b[4];
+	if(n > 5) v = (v << 8) | b[5];
+	if(n > 6) v = (v << 8) | b[6];
+	if(n > 7) v = (v << 8) | b[7];
+	return v;
+}
+
+/* all n (<= 9) octets of buf equal the spec octets */
+#define VF_OCT_EQ(buf, n, specfn, v) ( \
+	((n) <= 0 || (buf)[0] == specfn(v, 0)) && ((n) <= 1 || (buf)[1] == specfn(v, 1)) && \
+	((n) <= 2 || (buf)[2] == specfn(v, 2)) && ((n) <= 3 || (buf)[3] == specfn(v, 3)) && \
+	((n) <= 4 || (buf)[4] == specfn(v, 4)) && ((n) <= 5 || (buf)[5] == specfn(v, 5)) && \
+	((n) <= 6 || (buf)[6] == specfn(v, 6)) && ((n) <= 7 || (buf)[7] == specfn(v, 7)) && \
+	((n) <= 8 || (buf)[8] == specfn(v, 8)))
+
+/* an octet at position i is a redundant leading octet (X.690 8.3.2 forbids it, decoders accept it) */
+#define VF_REDUNDANT(b, i) (((b)[i] == 0x00 && ((b)[(i) + 1] & 0x80) == 0) || ((b)[i] == 0xFF && ((b)[(i) + 1] & 0x80) != 0))
+
+
+
+/* macro forms (loop invariants may not contain calls) */
+#define VF_UT(p, n, i) ((n) > (i) ? ((uint64_t)(p)[i] << (8 * ((n) - 1 - (i)))) : (uint64_t)0)
+#define VF_UDEC(p, n) (VF_UT(p, n, 0) | VF_UT(p, n, 1) | VF_UT(p, n, 2) | VF_UT(p, n, 3) | \
+	VF_UT(p, n, 4) | VF_UT(p, n, 5) | VF_UT(p, n, 6) | VF_UT(p, n, 7))
+/* sign-extension fill octet for an INTEGER whose leading octet is x */
+#define VF_FILL(x) (((x) & 0x80) ? 0xFF : 0x00)
+
 #endif
